@@ -136,6 +136,31 @@ fn oracle(c: &Case, acc: &mut Acc) -> CaseResult {
         repeated = true;
         acc.label(format!("threads:{n}"));
     }
+    // after a synchronised rekey of both directions the same must hold with the rekeyed keys
+    if c.threads <= 1 && c.seed % 3 == 0 {
+        let (mut ti, mut tr, mut fi, mut fr) = (ti, tr, fi, fr);
+        ti.rekey_outgoing();
+        tr.rekey_incoming();
+        fi.rekey_outgoing();
+        if !oneway {
+            tr.rekey_outgoing();
+            ti.rekey_incoming();
+            fr.rekey_outgoing();
+        }
+        for (k, it) in items.iter().enumerate() {
+            let f = if it.r_to_i { &mut fr } else { &mut fi };
+            f.verif_set_sending_nonce(it.nonce);
+            let want = t_write(f, &payloads[k], it.plen + 16).map_err(|x| Fail::setup(format!("{name}: stateful write after rekey: {}", e(&x))))?;
+            let (w, r) = if it.r_to_i { (&tr, &ti) } else { (&ti, &tr) };
+            for round in 0..2 {
+                let m = sl_write(w, it.nonce, &payloads[k], it.plen + 16).map_err(|x| Fail::new(format!("{name}: write of item {it:?} after rekey failed: {}", e(&x))))?;
+                ensure!(m == want, "{name}: item {it:?} after a rekey (round {round}): stateless write differs from the rekeyed stateful sender");
+                let p = sl_read(r, it.nonce, &m, it.plen).map_err(|x| Fail::new(format!("{name}: read of item {it:?} after rekey failed: {}", e(&x))))?;
+                ensure!(p == payloads[k], "{name}: item {it:?} after rekey: payload differs");
+            }
+        }
+        acc.label("checked_after_rekey");
+    }
     acc.label(format!("cipher:{}", spec.suite.cipher.name()));
     acc.label(format!("backend:{:?}", spec.backend_i));
     if items.iter().any(|i| i.nonce >= 1 << 32) {
@@ -253,7 +278,7 @@ fn hist_oracle(c: &HistCase, acc: &mut Acc) -> CaseResult {
     Ok(())
 }
 
-const NONCES: [u64; 8] = [0, 1, 0xFFFF_FFFF, 0x1_0000_0000, 1 << 63, u64::MAX - 2, u64::MAX - 1, 0xDEAD_BEEF_0BAD_F00D];
+const NONCES: [u64; 12] = [0, 1, 0xFFFF_FFFF, 0x1_0000_0000, 1 << 63, u64::MAX - 2, u64::MAX - 1, 0xDEAD_BEEF_0BAD_F00D, 1 << 16, (1 << 16) + 1, 0xABCD_0000, 0x7_0000_0000_0000];
 
 pub fn run(ctx: &Ctx) {
     // deterministic boundary cases
@@ -279,7 +304,7 @@ pub fn run(ctx: &Ctx) {
         ctx.tier.pick(20_000, 200_000),
         || {
             let nonce = prop_oneof![2 => (0usize..NONCES.len()).prop_map(|i| NONCES[i]), 2 => any::<u64>().prop_map(|v| if v == u64::MAX { 7 } else { v }), 1 => 0u64..1000];
-            let item = (any::<bool>(), nonce, prop_oneof![4 => 0usize..80, 1 => Just(65519usize), 1 => 0usize..5000]).prop_map(|(r_to_i, nonce, plen)| Item { r_to_i, nonce, plen });
+            let item = (any::<bool>(), nonce, prop_oneof![4 => 0usize..80, 1 => Just(65519usize), 1 => 0usize..5000, 1 => 5000usize..40000]).prop_map(|(r_to_i, nonce, plen)| Item { r_to_i, nonce, plen });
             (prop_oneof![3 => Just("NN"), 1 => Just("N"), 1 => Just("XX"), 1 => Just("K"), 1 => Just("IK")], 0usize..24, any::<bool>(), prop::collection::vec(item, 1..8), prop::collection::vec((any::<u8>(), any::<bool>()), 1..30), any::<u64>()).prop_map(
                 |(p, suite_idx, ring, items, script, seed)| Case { pattern: p.to_string(), suite_idx, backend: if ring { Backend::RingFirst } else { Backend::Default }, items, script, seed, threads: 1 },
             )
@@ -290,7 +315,14 @@ pub fn run(ctx: &Ctx) {
     let mut tcases = Vec::new();
     for suite_idx in 0..ctx.tier.pick(6usize, 24) {
         for backend in [Backend::Default, Backend::RingFirst] {
-            let items: Vec<Item> = (0..16u64).map(|j| Item { r_to_i: j % 2 == 1, nonce: if j < 8 { NONCES[j as usize] } else { mix(ctx.seed, j) % (u64::MAX - 1) }, plen: (j as usize * 37) % 300 }).collect();
+            let items: Vec<Item> = (0..16u64)
+                .map(|j| Item {
+                    r_to_i: j % 2 == 1,
+                    // items 12..15 re-use the nonces of items 0..3 with different payloads
+                    nonce: if j >= 12 { NONCES[(j - 12) as usize] } else if j < 8 { NONCES[j as usize] } else { mix(ctx.seed, j) % (u64::MAX - 1) },
+                    plen: if j % 4 == 2 { [9000usize, 20000, 40000, 65519][(j as usize / 4) % 4] } else { (j as usize * 37) % 300 },
+                })
+                .collect();
             let script: Vec<(u8, bool)> = (0..40u8).map(|j| (j.wrapping_mul(7), j % 2 == 0)).collect();
             tcases.push(Case { pattern: "NN".into(), suite_idx: suite_idx * 4 % 24 + suite_idx / 6, backend, items, script, seed: mix(ctx.seed, 1000 + suite_idx as u64), threads: 8 });
         }
